@@ -1,12 +1,12 @@
 """dev helper: python3-vt -m vk.dbg <qualname> <obligation-substring>  -> dumps hyps/goal"""
-import sys, z3
+import os, sys, z3
 from vk.engine import Program
 from vk.contracts import ContractDB
 from vk.verify import verify_function
 from vk.run1 import FILES
 
 def load(q):
-    prog = Program(FILES); db = ContractDB().load_dir('/verif/contracts')
+    prog = Program(FILES); db = ContractDB().load_dir(os.path.join(os.path.dirname(os.path.dirname(os.path.abspath(__file__))), 'contracts'))
     return verify_function(prog, db, q, db.contracts[q][0])
 
 if __name__ == '__main__':
